@@ -21,7 +21,7 @@ func init() {
 			`R13.4 every magic constant written has a reader expecting the same constant; R13.5 in package wire the byte count returned by a Read call is never discarded (a source may return 0, nil at a save point); R13.6 every success return of ReadMessage has passed msg.Reset() and the unmarshalling of the bytes just read (decoding merges, so without the reset an all-default message reads back as its predecessor). ` +
 			`R13.7 WriteMessage writes the varint length and then the marshalled bytes on every success path, empty payloads included; R13.8 every success return of WriteContext.Close has tested the writer against an interface with a Close method and, on the branch where the test held, invoked it (CompressWire hands the compressor to a WriteContext: its Close writes the final block and trailer that make the stream end). ` +
 			`R13.9 every success path of Resume stores a save state other than 'has a source checkpoint', or reaches the return through a test that shows the state is another one. ` +
-			`R13.10 reader and writer agree on message length limits; R13.11 the source DecompressWire hands to NewReadContext derives on every branch from Section(offset, size-offset) and was resumed from nil; R07.5 (shared) streams are decompressed as their own header declares. R13.12 CompressWire hands back its input context only through the outcome Algorithm == NONE. NOT decided: the round trip itself, buffer regrowth, decompressor checkpoints lagging the message offset (savior's code).`,
+			`R13.10 reader and writer agree on message length limits; R13.11 the source DecompressWire hands to NewReadContext derives on every branch from Section(offset, size-offset) and was resumed from nil; R07.5 (shared) streams are decompressed as their own header declares. R13.12 CompressWire hands back its input context only through the outcome Algorithm == NONE. R13.13 when a registered compressor hands back a wrapper type of the module, the wrapper has a Close and every success return of it lies behind the codec's Close (an 'already closed' flag that Close sets excepted); R13.3 looks for the codec's constructor in the wrapper's methods; R13.7 also accepts one Write of (*proto.Buffer).Bytes() after EncodeMessage as prefix and payload. R15.7 (shared) nothing that belongs to a pooled object is returned behind a deferred sync.Pool.Put or used after a plain one. NOT decided: the round trip itself, buffer regrowth, decompressor checkpoints lagging the message offset (savior's code).`,
 		Assumptions: []string{"the underlying source is the field source of wire.ReadContext"},
 		Run:         runC13,
 	})
@@ -233,7 +233,29 @@ func runC13(c *core.Ctx) {
 				return pred(cl.Call.Args[0])
 			}
 		}
-		isPayload := isWriteOf(func(v ssa.Value) bool { return marshal != nil && extractOf(v, marshal, 0) })
+		// the other idiom: (*proto.Buffer).EncodeMessage writes the varint length and the body into the buffer;
+		// one Write of that buffer's Bytes() is prefix and payload at once
+		framed := func(v ssa.Value) bool {
+			for _, f := range core.WithAnons(wm) {
+				for _, o := range originsAcrossLiterals(v, f) {
+					bc, ok := o.(*ssa.Call)
+					if !ok || !strings.HasSuffix(core.CalleeName(bc), "proto.Buffer).Bytes") || len(bc.Call.Args) == 0 {
+						continue
+					}
+					enc := false
+					core.Instrs(bc.Parent(), func(in ssa.Instruction) {
+						if ec, ok := in.(*ssa.Call); ok && strings.HasSuffix(core.CalleeName(ec), "proto.Buffer).EncodeMessage") && sameVal(ec.Call.Args[0], bc.Call.Args[0]) && core.InstrDominates(ec, bc) {
+							enc = true
+						}
+					})
+					if enc {
+						return true
+					}
+				}
+			}
+			return false
+		}
+		isPayload := isWriteOf(func(v ssa.Value) bool { return (marshal != nil && extractOf(v, marshal, 0)) || framed(v) })
 		isPrefix := isWriteOf(func(v ssa.Value) bool {
 			// a slice of the varint buffer cut at what PutUvarint returned
 			for _, o := range core.Origins(v) {
@@ -245,7 +267,7 @@ func runC13(c *core.Ctx) {
 					}
 				}
 			}
-			return false
+			return framed(v)
 		})
 		n := 0
 		for _, rs := range successReturns(wm) {
@@ -257,6 +279,9 @@ func runC13(c *core.Ctx) {
 			c.Check(p == nil, "R13.7", core.FnName(wm), "payload written before success", core.InstrPos(rs.Ret),
 				"every path to this success return writes the marshalled bytes", "WriteMessage can succeed without writing the payload it announced").Path = c.P.PathStrings(p)
 			for _, pw := range allInstrs(wm, isPrefix) {
+				if isPayload(pw) {
+					continue // one write carries both
+				}
 				p2 := core.FindPath(wm, pw, isPayload, nil)
 				c.Check(p2 != nil, "R13.7", core.FnName(wm), "the payload follows the prefix", core.InstrPos(pw), "prefix, then payload", "the payload is not written after the prefix")
 			}
@@ -265,6 +290,7 @@ func runC13(c *core.Ctx) {
 	}
 
 	ruleWriterCloseFinishesStream(c)
+	rulePooledNotUsedAfterPut(c, "R15.7")
 	ruleResumeLeavesNothingPending(c)
 	ruleReaderAcceptsWhatWriterWrites(c, "R13.10")
 	ruleDecompressedWireStartsAtZero(c, "R13.11")
@@ -421,6 +447,17 @@ func ruleCodecPairing(c *core.Ctx, rule string) {
 							cl, _ = x.Tuple.(*ssa.Call)
 						}
 						if cl == nil {
+							// a wrapper type of the module around the codec's stream: the constructor is called in its methods
+							for _, m := range wrapperMethods(c, o) {
+								core.Instrs(m, func(in ssa.Instruction) {
+									if wc, ok := in.(*ssa.Call); ok {
+										if f := wc.Call.StaticCallee(); f != nil && strings.Contains(strings.ToLower(core.PkgPathOf(f)), strings.ToLower(algName[k])) && f.Signature.Recv() == nil {
+											ctor = core.FnName(f)
+											okName = true
+										}
+									}
+								})
+							}
 							continue
 						}
 						if f := cl.Call.StaticCallee(); f != nil {
@@ -430,6 +467,9 @@ func ruleCodecPairing(c *core.Ctx, rule string) {
 							}
 						}
 					}
+				}
+				if kind == "RegisterCompressor" {
+					ruleWrappedStreamIsFinished(c, "R13.13", apply)
 				}
 				c.Check(okName, rule, core.FnName(apply), kind+"("+algName[k]+") builds a "+strings.ToLower(algName[k])+" stream", apply.Pos(),
 					"constructor "+ctor+" comes from a package named after the algorithm", "the codec registered for "+algName[k]+" builds its stream with "+ctor+", which is not a "+strings.ToLower(algName[k])+" implementation: the other side cannot decode it")
@@ -1119,4 +1159,163 @@ func rulePassThroughOnlyForNone(c *core.Ctx, rule string) {
 			"reached only through the outcome Algorithm == NONE", "CompressWire can hand back its input context - write the stream uncompressed - for an algorithm other than NONE (because of the quality, say): the header announces that algorithm, DecompressWire applies its decompressor, and the stream cannot be read back")
 	}
 	c.Floor(rule, "pass-through returns of CompressWire", n, 1)
+}
+
+// wrapperMethods: if v is (a pointer to) a freshly made value of a struct type declared in the module,
+// the methods of that type that have bodies.
+func wrapperMethods(c *core.Ctx, v ssa.Value) []*ssa.Function {
+	v = core.StripConv(v)
+	if mi, ok := v.(*ssa.MakeInterface); ok {
+		v = core.StripConv(mi.X)
+	}
+	al, ok := v.(*ssa.Alloc)
+	if !ok {
+		return nil
+	}
+	pt, ok := al.Type().(*types.Pointer)
+	if !ok {
+		return nil
+	}
+	nt, ok := pt.Elem().(*types.Named)
+	if !ok || nt.Obj().Pkg() == nil || !strings.HasPrefix(nt.Obj().Pkg().Path(), core.Mod) {
+		return nil
+	}
+	var out []*ssa.Function
+	ms := c.P.SSA.MethodSets.MethodSet(pt)
+	for i := 0; i < ms.Len(); i++ {
+		if m := c.P.SSA.MethodValue(ms.At(i)); m != nil && m.Blocks != nil {
+			out = append(out, m)
+		}
+	}
+	return out
+}
+
+// ruleWrappedStreamIsFinished (R13.13): when a registered compressor hands back a wrapper type of the
+// module instead of the codec's own writer, closing the wrapper finishes the codec's stream whether or
+// not anything was written: the wrapper has a Close method and every success return of it lies behind a
+// call of a Close method outside the module (the codec's). A wrapper that makes its encoder on the first
+// Write and whose Close does nothing when there is none writes zero bytes for the empty message
+// sequence: the reader gets 'unexpected EOF' instead of a clean end of stream.
+func ruleWrappedStreamIsFinished(c *core.Ctx, rule string, apply *ssa.Function) {
+	c.Rule(rule, "closing what a registered compressor hands back finishes the codec's stream, written to or not")
+	for _, rs := range core.Returns(apply, 0) {
+		for _, o := range core.Origins(rs.Val) {
+			ms := wrapperMethods(c, o)
+			if ms == nil {
+				continue
+			}
+			var closeFn *ssa.Function
+			for _, m := range ms {
+				if m.Name() == "Close" {
+					closeFn = m
+				}
+			}
+			if closeFn == nil {
+				c.Bad(rule, core.FnName(apply), "wrapper returned by the compressor has a Close method", core.InstrPos(rs.Ret),
+					"the compressor hands back a type of the module that has no Close method: WriteContext.Close cannot finish the compressed stream, which then lacks its final block")
+				continue
+			}
+			innerClose := func(in ssa.Instruction) bool {
+				cl, ok := in.(ssa.CallInstruction)
+				if !ok {
+					return false
+				}
+				if cl.Common().IsInvoke() {
+					return cl.Common().Method.Name() == "Close"
+				}
+				f := cl.Common().StaticCallee()
+				return f != nil && f.Name() == "Close" && !strings.HasPrefix(core.PkgPathOf(f), core.Mod)
+			}
+			// an "already closed" flag that Close itself sets may short-cut a second call
+			flagSet := map[string]bool{}
+			core.Instrs(closeFn, func(in ssa.Instruction) {
+				if st, ok := in.(*ssa.Store); ok {
+					if b, isB := core.ConstBool(st.Val); isB && b {
+						if _, n, ok := core.FieldOf(st.Addr); ok {
+							flagSet[n] = true
+						}
+					}
+				}
+			})
+			skip := func(b, s2 *ssa.BasicBlock) bool {
+				if len(b.Instrs) == 0 {
+					return false
+				}
+				ifi, ok := b.Instrs[len(b.Instrs)-1].(*ssa.If)
+				if !ok || b.Succs[0] != s2 {
+					return false
+				}
+				if ld, ok := ifi.Cond.(*ssa.UnOp); ok && ld.Op == token.MUL {
+					if _, n, ok := core.FieldOf(ld.X); ok && flagSet[n] {
+						return true
+					}
+				}
+				return false
+			}
+			n := 0
+			for _, sr := range successReturns(closeFn) {
+				n++
+				p := core.FindPathSkipping(closeFn, nil, isInstr(sr.Ret), innerClose, skip)
+				c.Check(p == nil, rule, core.FnName(closeFn), "success return behind the codec's Close", core.InstrPos(sr.Ret),
+					"every path to this return calls the Close of what the wrapper wraps", "the wrapper's Close can succeed without closing the codec's writer (when none was made yet, say): a compressed stream through which no message went is then zero bytes long instead of an empty, finished stream, and reading it back fails with 'unexpected EOF' where the uncompressed wire reports a clean end").Path = c.P.PathStrings(p)
+			}
+			if n == 0 {
+				c.Bad(rule, core.FnName(closeFn), "wrapper Close has a success return", closeFn.Pos(), "no success return found")
+			}
+		}
+	}
+}
+
+// originsAcrossLiterals: the origins of v; where an origin is a result of calling a function literal of
+// the same family (a helper the normaliser expanded in place), the origins of what that literal returns.
+func originsAcrossLiterals(v ssa.Value, _ *ssa.Function) []ssa.Value {
+	var out []ssa.Value
+	seen := map[ssa.Value]bool{}
+	var walk func(v ssa.Value, d int)
+	walk = func(v ssa.Value, d int) {
+		if d > 6 {
+			return
+		}
+		for _, o := range core.Origins(v) {
+			if seen[o] {
+				continue
+			}
+			seen[o] = true
+			if ex, ok := o.(*ssa.Extract); ok {
+				if cl, ok := ex.Tuple.(*ssa.Call); ok {
+					if lit := calledLiteral(cl); lit != nil {
+						for _, rs := range core.Returns(lit, ex.Index) {
+							walk(rs.Val, d+1)
+						}
+						continue
+					}
+				}
+			}
+			if cl, ok := o.(*ssa.Call); ok {
+				if lit := calledLiteral(cl); lit != nil {
+					for _, rs := range core.Returns(lit, 0) {
+						walk(rs.Val, d+1)
+					}
+					continue
+				}
+			}
+			out = append(out, o)
+		}
+	}
+	walk(v, 0)
+	return out
+}
+
+func calledLiteral(cl *ssa.Call) *ssa.Function {
+	switch x := cl.Call.Value.(type) {
+	case *ssa.MakeClosure:
+		if f, ok := x.Fn.(*ssa.Function); ok {
+			return f
+		}
+	case *ssa.Function:
+		if x.Parent() != nil {
+			return x
+		}
+	}
+	return nil
 }
